@@ -8,7 +8,7 @@ pub fn prop() -> Prop {
     Prop {
         id: "C11",
         level: "model_checking",
-        rule: "all sequences S of <=5 (thorough <=7) values over a 6-value universe (three records with per-record regex patterns incl. an invalid one, a record without the selected members, a scalar, an array with a nested cell longer than 64 bytes; two records share a pattern and a split element but differ in what a macro reads besides `.`) — i.e. every concatenation A.B with |A|+|B| <= 5 (thorough 7), every permutation and every duplication — x 25 pipelines made of --set, --split-by, --filter, --select (regex functions with cache sizes 0,1,2; variables; macros; previously selected names; ^ after split; --only-objects-and-arrays) x 5 output styles (one-line, consise, pretty, text, csv) plus text with --headers; and sequences of 64, 257 and 1031 values; sequences of <=4 values mixing small records with rows of 1 KiB, 9 KiB and 20 KiB; non-trivial = S holds two values with different rows; distinct by construction",
+        rule: "all sequences S of <=5 (thorough <=7) values over a 6-value universe (three records with per-record regex patterns incl. an invalid one, a record without the selected members, a scalar, an array with a nested cell longer than 64 bytes; two records share a pattern and a split element but differ in what a macro reads besides `.`) — i.e. every concatenation A.B with |A|+|B| <= 5 (thorough 7), every permutation and every duplication — x 26 pipelines made of --set, --split-by, --filter, --select (regex functions with cache sizes 0,1,2; variables; macros; previously selected names; ^ after split; --only-objects-and-arrays) x 5 output styles (one-line, consise, pretty, text, csv) plus text with --headers; and sequences of 64, 257 and 1031 values; sequences of <=4 values mixing small records with rows of 1 KiB, 9 KiB and 20 KiB; non-trivial = S holds two values with different rows; distinct by construction",
         explanation: "metamorphic: out(S) must be the header (out of the empty input) followed by the bodies of out([s]) for each s in S in order; this single relation over all S implies out(A.B)=out(A).out(B), permutation and duplication",
         assumptions: COMMON_ASSUMPTIONS.to_vec(),
         guards: vec!["row-beyond-every-buffer", "hundreds-of-records", "two-patterns-through-a-one-entry-cache", "header-printed-once", "split-produced-rows", "value-dropped-by-filter", "repeated-value"],
@@ -20,9 +20,9 @@ pub fn prop() -> Prop {
 }
 
 const U: [&str; 6] = [
-    "{\"n\":1,\"s\":\"aab\",\"p\":\"^a+\",\"l\":[1,2]}",
-    "{\"n\":2,\"s\":\"bba\",\"p\":\"^a+\",\"l\":[2,3]}",
-    "{\"n\":1.5,\"s\":\"aab\",\"p\":\"(b)$\",\"l\":[]}",
+    "{\"n\":1,\"s\":\"aab\",\"p\":\"^a+\",\"l\":[1,2],\"f\":\"%H:%M\"}",
+    "{\"n\":2,\"s\":\"bba\",\"p\":\"^a+\",\"l\":[2,3],\"f\":\"%Q\"}",
+    "{\"n\":1.5,\"s\":\"aab\",\"p\":\"(b)$\",\"l\":[],\"f\":\"%s|%\"}",
     "{\"s\":\"xyz\",\"p\":\"[\",\"l\":[2,2]}",
     "5",
     "[\"xxxxxxxxxxxxxxxxxxxxxxxxxxxxxxxxxxxxxxxxxxxxxxxxxxxxxxxxxxxxxxxxxxxxxx\",{\"k\":[1,2]}]",
@@ -63,6 +63,9 @@ fn pipelines() -> Vec<Pl> {
         Pl { name: "macro-reads-parent-after-split", args: vec!["--split-by=.l", "--set=@tag=(+ . ^.n)", "--select=@tag=t", "--select=.=e"], selections: true, cache1: false },
         Pl { name: "macro-reads-parent-in-pipe", args: vec!["--set=@full=(concat ^.s \"-\" .)", "--select=(| .p @full)=name"], selections: true, cache1: false },
         Pl { name: "macro-reads-variable", args: vec!["--set=@addq=(+ . :q)", "--select=(set \"q\" .n (| 10 @addq))=x", "--filter=(!= (set \"q\" .n (| 10 @addq)) 12)"], selections: true, cache1: false },
+        // arguments that are usually constants (a time format, a selection text, a separator) taken from the record:
+        // valid in one record, invalid in the next, then the same invalid one again
+        Pl { name: "per-record-format-and-program", args: vec!["--select=(format_time .n .f)=t", "--select=(parse_selection .p)=ps", "--select=(join (push [] .s .s) .f)=j", "--select=(parse_time (format_time .n \"%Y %H\") .f)=pt", "--filter=(or (string? .f) (number? .))"], selections: true, cache1: false },
         // scopes opened by set/define whose body gives nothing, next to a --set binding of the same name read by every record
         Pl { name: "set-scope-with-empty-body-over-preset", args: vec!["--set=k=\"n\"", "--select=(get . :k)=w", "--select=(set \"k\" \"s\" .zz)=v", "--select=(set \"k\" \"p\" (get . :k))=u"], selections: true, cache1: false },
         Pl { name: "define-scope-with-empty-body-over-preset", args: vec!["--set=@m=.n", "--select=@m=w", "--select=(define \"m\" .s .zz)=v", "--select=(define \"m\" .p @m)=u"], selections: true, cache1: false },
@@ -266,5 +269,5 @@ fn run(ctx: &mut Ctx) {
             }
         }
     }
-    ctx.level_done(&format!("all-sequences-of-<={maxlen}-values-x-25-pipelines-x-6-styles"));
+    ctx.level_done(&format!("all-sequences-of-<={maxlen}-values-x-26-pipelines-x-6-styles"));
 }
